@@ -38,6 +38,10 @@ func c19HelperMain() {
 	}
 	runtime.LockOSThread() // the request's system calls all come from the main thread
 	signal.Ignore(syscall.SIGXFSZ)
+	early := os.Getenv("PVH_C19_MARK_EARLY") != ""
+	if early {
+		syscall.Close(c19Marker) // restart refinement: the start-up itself is under observation
+	}
 	srv, err := c19NewServer(os.Getenv("XDG_CONFIG_HOME"))
 	if err != nil {
 		fmt.Println("helper-error", err)
@@ -51,7 +55,9 @@ func c19HelperMain() {
 			os.Exit(3)
 		}
 	}
-	syscall.Close(c19Marker)
+	if !early {
+		syscall.Close(c19Marker)
+	}
 	status, _, pn := srv.get(os.Getenv("PVH_C19_REQ"))
 	fmt.Println("status", status, pn)
 	os.Exit(0)
@@ -64,9 +70,9 @@ type c19Run struct {
 }
 
 // c19Helper runs one request in a helper process; straceArgs non-nil ⇒ under strace.
-func (e *c19Env) helper(xdg, req string, fsize int, straceArgs []string, tag string) c19Run {
+func (e *c19Env) helper(xdg, req string, fsize int, straceArgs []string, tag string, extraEnv ...string) c19Run {
 	self, _ := os.Executable()
-	env := append(os.Environ(), "PVH_C19_HELPER=1", "XDG_CONFIG_HOME="+xdg, "PVH_C19_REQ="+req, "HOME="+xdg, "PPROF_TMPDIR="+xdg, "GOMAXPROCS=2")
+	env := append(append(os.Environ(), extraEnv...), "PVH_C19_HELPER=1", "XDG_CONFIG_HOME="+xdg, "PVH_C19_REQ="+req, "HOME="+xdg, "PPROF_TMPDIR="+xdg, "GOMAXPROCS=2")
 	if fsize >= 0 {
 		env = append(env, "PVH_C19_FSIZE="+strconv.Itoa(fsize))
 	}
@@ -584,6 +590,7 @@ func (e *c19Env) runFault(cs c19Case) {
 	j := e.faultPrepare(cs, old, oldExists)
 	e.faultExec(j)
 	e.faultJudge(j, newb)
+	e.restartJudge(j.cs, j.xdg, j.file, j.old, j.oldExists, newb)
 }
 
 // traceAndFaults: parts (ii) and (iii) of a normal run.
@@ -668,13 +675,27 @@ func (e *c19Env) traceAndFaults(r *Rng) {
 		}(j)
 	}
 	wg.Wait()
+	var partial *c19FaultJob // a crash that left a non-empty temp file behind: used for the traced restart
 	for i, j := range jobs {
+		nb := newb
 		if i < nMain {
 			e.faultJudge(j, newb)
 			c.Res.Count("fault:"+j.cs.Fault, true)
 		} else {
+			nb = newFirst
 			e.faultJudge(j, newFirst)
 			c.Res.Count("fault-first-save:"+j.cs.Fault, true)
 		}
+		if partial == nil && j.oldExists {
+			for _, lo := range c19Leftovers(j.file) {
+				if fi, err := os.Stat(filepath.Join(filepath.Dir(j.file), lo)); err == nil && fi.Size() > 0 && fi.Size() < int64(len(nb)) {
+					partial = j
+				}
+			}
+		}
+		if partial == j {
+			e.restartTrace(j) // before the in-process restart below touches the directory
+		}
+		e.restartJudge(j.cs, j.xdg, j.file, j.old, j.oldExists, nb)
 	}
 }
